@@ -332,6 +332,8 @@ func (w *Worker) execOne(rc *simapi.RunConfig) {
 		r = w.runC04CLI(rc)
 	case "analyzer-sched":
 		r = w.runC04Analyzer(rc)
+	case "analyzer-config":
+		r = w.runC19(rc)
 	case "rulefs":
 		r = w.runC18(rc)
 	case "lib-frame":
@@ -385,6 +387,8 @@ func (w *Worker) generate(prop, tier string, seed uint64, i int) (*simapi.RunCon
 		w.genC05(rc)
 	case "C18":
 		w.genC18(rc)
+	case "C19":
+		w.genC19(rc)
 	default:
 		if err := w.genOther(rc); err != nil {
 			return nil, err
